@@ -352,3 +352,15 @@ Theorem C02_quoted_documents_conform : forall c fin fuel d,
   ConvertModel c (md_of false fin d) = Ok (html_of d).
 Proof. exact quoted_doc_conforms. Qed.
 Print Assumptions C02_quoted_documents_conform.
+
+(* and for the leaf blocks: every document made of plain paragraphs, ATX headings (levels 1..6),
+   thematic breaks (three spellings) and fenced code blocks (an info word or none, code lines of
+   lower-case letters and blanks, possibly empty), separated by one empty line, with or without
+   the final newline (proofs/SpecLeaf*.v, 2.0 k lines: one "one more block" step lemma per block
+   kind under a common interface, then an induction over the document) *)
+Require Import GM.proofs.SpecLeafConform.
+Theorem C02_leaf_documents_conform : forall c fin d,
+  hardwraps c = false -> xhtml c = true -> leaf_doc d = true ->
+  ConvertModel c (md_of false fin d) = Ok (html_of d).
+Proof. exact leaf_doc_conforms. Qed.
+Print Assumptions C02_leaf_documents_conform.
